@@ -13,7 +13,7 @@ import random
 
 from harness import common
 from harness.render import *  # noqa
-from checks import render_common
+from checks import c08_tree, render_common
 
 PID = 'C08'
 
@@ -110,9 +110,9 @@ def main(tier):
     rng = random.Random(common.seed())
     cases = cases_for(tier, rng)
     return render_common.run(
-        PID, tier, cases, ['evs', 'depth', 'level', 'result'], batch=400,
+        PID, tier, cases, ['evs', 'depth', 'level', 'result'], batch=400, extra_stage=c08_tree.stages,
         assumptions=['faults are raised by namespace callables at their k-th invocation (ValueError, KeyError, '
-                     'DTReturn); dtml-tree pushes are covered by the C20 drivers, not here',
+                     'DTReturn); dtml-tree (all modes, nested, faults in branches / id / url / body) is validated against the projection spec ObsStack',
                      'with ... only is not used here (its namespace is a fresh TemplateDict)'],
         rule='block programs (every block kind around every leaf, every block kind nested in every block kind, '
              'random depth 3 in the thorough tier) x fault plans chosen by TLC: none, one fault at every '
